@@ -411,6 +411,9 @@ def omission_rule(ctx, rule: str) -> None:
 
 def _parse_defaults(ctx, pv) -> T.Dict[str, T.Any]:
     """Defaults the parser gives to an absent group:  X = int(fvals.get('k') or C) | fvals.get('k') or "" | ... """
+    folded = fold_reader(ctx, {})
+    if folded is not None and all(f_ in folded for f_ in NON_CAL_FIELDS):
+        return dict(folded)
     out: T.Dict[str, T.Any] = {}
     for n in walk_no_nested(pv.node):
         if not (isinstance(n, ast.Assign) and len(n.targets) == 1 and isinstance(n.targets[0], ast.Name)):
@@ -456,13 +459,7 @@ def reader_fold_rule(ctx, rule: str) -> None:
     ABSENT = object()
 
     def run_case(groups: T.Dict[str, T.Any]) -> T.Optional[T.Dict[str, T.Any]]:
-        env: T.Dict[str, T.Any] = {param: dict(groups), "__stubs__": {"parse_field_values_to_cinfo": lambda f, node: types.SimpleNamespace(
-            **{k: f"cal:{k}" for k in ("year_y", "year_g", "quarter", "month", "dom", "doy", "week_w", "week_u", "week_v")})}}
-        try:
-            prog._propagate(pv.module, body[:-1], env, pv.fq)
-            return {k: prog.fold(pv.module, v, env) for k, v in kws.items() if k in ints or k in strs or k in ("tag", "pytag")}
-        except (CannotFold, KeyError, TypeError, ValueError, AttributeError, IndexError):
-            return None
+        return fold_reader(ctx, groups)
     cases: T.List[T.Tuple[T.Dict[str, T.Any], T.Dict[str, T.Any]]] = []
     for f_, dflt in ints.items():
         cases.append(({f_: "7", "bid": "1001"}, {f_: 7}))
@@ -506,3 +503,26 @@ def reader_fold_rule(ctx, rule: str) -> None:
     ctx.check(rule, not bad, f"parse_field_values_to_vinfo: non-calendar fields are the captured texts / their defaults ({n_folded} sample group dicts folded)",
               "v2version.parse_field_values_to_vinfo: a captured non-calendar value is not what the reader returns",
               "; ".join(bad[:3]), loc=pv.loc(), witness={"cases": bad[:5]})
+
+
+NON_CAL_FIELDS = ("major", "minor", "patch", "num", "inc0", "inc1", "githash", "hexhash", "bid", "tag", "pytag")
+
+
+def fold_reader(ctx, groups: T.Dict[str, T.Any]) -> T.Optional[T.Dict[str, T.Any]]:
+    """The non-calendar constructor arguments of v2version.parse_field_values_to_vinfo for the given match groups, by
+    folding its body (the calendar reader is abstracted); None if the body cannot be folded."""
+    import types
+    from sa.model import CannotFold
+    prog = ctx.prog
+    pv = prog.function("v2version.parse_field_values_to_vinfo")
+    body = [st for st in pv.node.body if not (isinstance(st, ast.Expr) and isinstance(st.value, ast.Constant))]
+    if not body or not isinstance(body[-1], ast.Return) or not isinstance(body[-1].value, ast.Call):
+        return None
+    kws = shapes.kwargs_of(body[-1].value)
+    env: T.Dict[str, T.Any] = {pv.params[0]: dict(groups), "__stubs__": {"parse_field_values_to_cinfo": lambda f, node: types.SimpleNamespace(
+        **{k: f"cal:{k}" for k in ("year_y", "year_g", "quarter", "month", "dom", "doy", "week_w", "week_u", "week_v")})}}
+    try:
+        prog._propagate(pv.module, body[:-1], env, pv.fq)
+        return {k: prog.fold(pv.module, v, env) for k, v in kws.items() if k in NON_CAL_FIELDS}
+    except (CannotFold, KeyError, TypeError, ValueError, AttributeError, IndexError):
+        return None
